@@ -55,7 +55,7 @@ CHECKS = {
     text=('Bounded symbolic proof on the narrow phase of the contact models: resolve_contact / apply_contact_forces runs in irsym on one (node, face) pair with all positions, normals, curvatures, cut-offs and strengths symbolic, '
           'for representative ordered pairs of cell types (quick: 5 pairs, contact model 1; thorough: all 25 pairs, models 0/1/2, both cut-off orders). The kernel is replaced by its contract (C05). Per feasible path z3 proves reciprocity, '
           'no force beyond the largest cut-off, repulsion only on the forbidden side (inverted for epithelial-vs-ECM and nucleus-vs-epithelial), node pushed toward the surface point with the reaction toward the node, couplings mutual/epithelial-only/within the adhesion cut-off. A last part runs the whole model on the two-cell tissue of C06 with persistent ids ahead of the list positions: the hand-over log must contain no same-cell pair and every withheld pair must lie outside the cut-off box. An obligation z3 leaves undecided is re-searched with the scalar parameters fixed (a refutation found this way is replayed natively; a proof under fixed parameters does not count).'),
-    note='Trusted: clang lowering (validated per model), irsym, normaliser, z3; kernel contract from C05. Outside: accumulation over many pairs under threads, broad phase, same-cell filtering (C06).',
+    note='Trusted: clang lowering (validated per model), irsym, normaliser, z3; kernel contract from C05. Cell types define the three face types the polarisation code can label a face with (fewer: open finding C08/face-type-index). Outside: accumulation over many pairs under threads, broad phase, same-cell filtering (C06).',
     technique='symbolic execution of LLVM IR (per contact model) + z3 nonlinear real arithmetic; native replay',
     design='3/C07'),
  'C08': dict(
@@ -71,7 +71,7 @@ CHECKS = {
     text=('Memory-safety monitoring on symbolically explored paths (not a whole-program claim): irsym executes the real constructor, initialize_cell_properties and each refinement/compaction '
           'operation (split, can_be_merged+merge, swap on every edge; rebase) on catalogue meshes whose vectors are at capacity, with symbolic coordinates; every load/store is checked against live '
           'regions, never-written bytes are tracked into decisions, frees are checked. Further parts: first iterations of the real solver and its construction/destruction (ASan for sized deletes), and the mesh loader after tokenisation (mesh_reader::get_cell_mesh with every list entry symbolic, the exploration of C17). z3 decides which paths exist; a report counts only if valgrind memcheck confirms the same class of error natively.'),
-    note='Trusted: irsym memory model and libstdc++ models; valgrind as replay oracle (also on a -O0 build for uninitialised reads). Outside: thread schedules, parsing, ball pivoting, sprintf, every path no harness explores (see DESIGN C10).',
+    note='Trusted: irsym memory model and libstdc++ models; valgrind as replay oracle (also on a -O0 build for uninitialised reads). Part (e): both sprintf sites (format_number with the four formats the repository uses; hh:mm:ss of the statistics writers with the clock as environment) with symbolic numbers: the sprintf model makes the output length an expression in the arguments and z3 decides whether it can exceed the destination buffer; AddressSanitizer replay. Outside: thread schedules, parsing, ball pivoting, every path no harness explores (see DESIGN C10).',
     technique='symbolic execution of LLVM IR with a checked memory model; z3 path feasibility; valgrind replay',
     design='3/C10'),
  'C12': dict(
@@ -87,7 +87,7 @@ CHECKS = {
     level='other',
     text=('Symbolic proof of the closed-form cell-cycle laws: update_target_volume, update_pressure, is_ready_to_divide (through the vtable of all five cell classes), is_below_min_vol '
           'and initialize_random_properties are executed in irsym with all scalars symbolic (P_max and V_div finite or +inf; sigma zero or not); z3 proves the laws on every feasible path. '
-          'No loops: the only bounds are the case enumeration listed in the evidence. log is uninterpreted; a counterexample whose log value the real logarithm does not take is re-searched with log pinned to its true value at a list of volume ratios, so that it can be replayed natively.'),
+          'No loops: the only bounds are the case enumeration listed in the evidence. log is uninterpreted; a counterexample whose log value the real logarithm does not take is re-searched with log pinned to its true value at a list of volume ratios, so that it can be replayed natively. Mesh part: a cell of each class that applies internal forces is built and initialised on one tetrahedron (coordinates X0), its nodes are moved to X1 (all 24 coordinates symbolic) and the real apply_internal_forces(dt) runs with the force terms stubbed: the stored volume is the volume enclosed by the mesh as it is now, and target volume, pressure and the removal predicate follow from it.'),
     note='Trusted: clang lowering (validated per run), irsym, z3, log as uninterpreted function, normal_distribution::operator() stubbed as mean+stddev*Z (Z arbitrary real). The removal loop of the solver is covered by C08.',
     technique='symbolic execution of LLVM IR + z3 (LRA/NRA with uninterpreted log)',
     design='3/C04'),
@@ -104,7 +104,8 @@ CHECKS = {
     text=('Kernels only (end-to-end divide_cell with its clock-seeded Poisson sampling, Delaunay triangulation and remeshing is not encoded): from the LLVM IR in exact reals, z3 decides per path (K1) find_edge_plane_intersection: a returned point lies on the plane and on the segment, '
           'and "no intersection" is never returned for end points strictly on opposite sides; (K2) map_points_to_xy_plane + map_points_to_division_plane as divide_cell composes them, for every unit division axis except (0,0,-1) (both branches: axis = +z and the quaternion branch): '
           'rotation orthonormal and axis -> +z, interface flattened isometrically, round trip exact, points created at z = 0 return into the division plane through the interface centroid. 2-3 (4 thorough) interface points, 1 (2) new points; (K3) add_point_to_face + divide_faces on two triangles sharing the cut edge with symbolic distinct node ids, every stored rotation / cut-edge pair / insertion order (72 structures): the six triangles tile the cut faces with the original orientation; (K4) the real body of divide_cell with its stages replaced by stand-ins that succeed or throw (division_exception, mesh_integrity_exception, intialization_exception, std::bad_alloc at each of five stages): both daughters are of the class of the mother and inherit half of her symbolic TARGET volume, every stage failure becomes "no division" without an escaping exception and without touching the mother. '
-          'Daughter validity, volumes, the no-throw guarantee and success-or-unchanged of the whole pipeline are NOT covered; population bookkeeping of cell_divider::run is covered by C08 with divide_cell replaced by its contract.'),
+          '(K5) the real cell_divider::run on 1-3 (4 thorough) cells with the volume of every cell and the success of every division symbolic (divide_cell replaced by its contract): every subset of ready cells and of successful divisions is a path; divide_cell is called exactly for the cells with V >= V_div, every mother that divided is replaced by exactly two daughters with fresh ids, the other cells are kept unchanged and in order, no emptied cell stays, ids unique, local ids = positions; the native replay links the compiled run() against the same stand-in (divide_cell symbol weakened in the repository object). '
+          'Daughter validity, volumes, the no-throw guarantee and success-or-unchanged of the whole randomised pipeline are NOT covered.'),
     note='Trusted: clang lowering (validated per run), irsym, z3 NRA + polynomial normaliser. Three extra distance identities for three interface points stay undecided within the quick time limit (non-core; implied by the proved orthonormality and round trip).',
     technique='symbolic execution of LLVM IR; z3 nonlinear real arithmetic with sqrt definitions (polynomial normaliser first); native replay',
     design='3/C09'),
@@ -120,7 +121,7 @@ CHECKS = {
  'C15': dict(
     level='other',
     text=('Restricted sense: thread interleavings are not explored. The OpenMP runtime is modelled with one thread per block of the static schedule, threads run to completion in a chosen order, and every load/store of the real code (LLVM IR) inside parallel regions is logged with thread, address and '
-          'critical/atomic context. (A) parallel_exception_handler: placement and type of the throwing elements symbolic (z3 enumerates them), all thread orders for n <= 3: every element processed, the caller receives one of the thrown exceptions as such. '
+          'critical/atomic context. (A) parallel_exception_handler: placement and type of the throwing elements symbolic (z3 enumerates them), all thread orders for n <= 3: every element processed, the caller receives one of the thrown exceptions as such (omp_get_thread_num / omp_get_num_threads / omp_get_max_threads answer according to the thread model: thread t of T inside a region, 0 of 1 outside). '
           '(B) non-interacting 3-cell tissue, constructor + 2 (4) iterations: in every parallel region no two iterations touch the same byte with a write outside common critical sections / atomics - the classical sufficient condition for bit-identical results under any thread count and schedule. '
           '(C) cell_divider::run with 2 and 3 cells dividing in one call (divide_cell replaced by its contract): same population for all 6 completion orders, and the loop body checked as in B. mesh_writer sections, libgomp and preemptive interleavings are outside.'),
     note='Trusted: clang lowering (validated per run; the 3-thread model run is bit-identical to the native run), irsym, the OpenMP model described above, z3. The data race of cell_divider::run found by (C) was confirmed with ThreadSanitizer on the real code and fixed (0cf9c3f).',
@@ -147,7 +148,7 @@ CHECKS = {
     level='other',
     text=('Numbering law and statistics cadence: the real solver::save_mesh and the integrator\'s time advance run from the LLVM IR over k iterations with symbolic dt and S. Exact reals (z3 with to_int): every feasible numbering sequence '
           'starts at 1, never decreases, has no gap and ends within two of T/S+1, and simulated time is j*dt. IEEE doubles (cbmc on the path DAG): per path, search for a wrong first number, a decrease or a gap; counterexamples are '
-          'replayed natively with the real mesh writer. One open known finding (gap when S is within a few ulp of dt). Statistics cadence: the real solver::run() on one static cell with the duration symbolic - every iteration count 1..60 (160 thorough) is a path - must call the statistics writer for iterations 0, 50, 100, ... and for the last one, once each. File contents, CSV shape and the values written are not covered.'),
+          'replayed natively with the real mesh writer. One open known finding (gap when S is within a few ulp of dt). Statistics cadence: the real solver::run() on one static cell with the duration symbolic - every iteration count 1..60 (160 thorough) is a path - must call the statistics writer for iterations 0, 50, 100, ... and for the last one, once each, and must stop exactly when T is reached (final time N dt >= T and (N-1) dt < T on every path, T symbolic). File contents, CSV shape and the values written are not covered.'),
     note='Trusted: clang lowering (validated), irsym, z3, cbmc --floatbv. Bounds: k=6 (exact) / 4 (IEEE) iterations quick, 12 / 6 thorough; 0 < dt <= S, 1e-9 <= dt, S <= 1e6 for IEEE. The reading of "K within one of T/S+1" is stated in the evidence assumptions.',
     technique='symbolic execution of LLVM IR; z3 mixed integer/real arithmetic; bit-precise path DAG -> C -> cbmc; native replay',
     design='3/C19'),
